@@ -13,6 +13,72 @@ check("C05", "dsu", "model_checking",
       "explicit-state BFS to closure over the implementation's own states (parallel, full canonical keys), lockstep reference model",
       "DESIGN.md §4 C05")
 
+check("C01", "seg", "model_checking",
+      "Breadth-first search over the real Segtree's own node array (hook verif_nodes) with a plain-array model in lockstep. For a finite non-commutative algebra (words over {0,1} with the four non-commuting functions as modifiers) and for Sum<Z3>, Min/Max<u8>, SumAdd<Z4> and a nested Combinator the search runs to CLOSURE for every n <= 6 (quick) / 7 (thorough), so histories of any length over set/modify/ask/debug from all three constructors are covered; the free algebra (decides 'every lawful item type', see DESIGN) and the i64 built-ins and their Combinator nestings are covered for all histories up to a stated depth for n <= 9 / n <= 7.",
+      "Trusted: the harness item algebras satisfy the monoid-action laws; the free-algebra homomorphism argument of DESIGN §4 C01. Bounded: n above the closed sizes; depth for the unbounded-value algebras.",
+      "explicit-state BFS to closure over the implementation's node array, lockstep plain-array reference model",
+      "DESIGN.md §4 C01")
+check("C02", "seg", "model_checking",
+      "Same state spaces as C01 (so every reachable configuration of pending modifiers), with lower_bound and lower_bound_rev applied at every position for every predicate of a monotone family (length thresholds incl. always-true/always-false, contains-1, two-1s, order-sensitive 1-then-0; value thresholds for the built-ins) in every reached state. Judged: the returned index against the definition, every aggregate shown to the predicate must be the in-order merge of [l..=r'] for some r', and the logical array is unchanged afterwards.",
+      "Trusted: as C01. The predicate family is finite; monotone predicates outside it are not enumerated.",
+      "explicit-state BFS to closure, searches as judged transitions, predicate-argument logging",
+      "DESIGN.md §4 C02")
+check("C06", "mint", "exploration",
+      "Exhaustive over every modulus 2..=64: all ordered residue pairs for + - * / and assigning forms, neg, inv for every unit, new for every v in [-3M,3M] plus i64 boundary values, pow for e in 0..=2M plus u64 boundary exponents, Display/Debug/Writable/Readable through the real Reader/Writer; boundary residue pairs for 7 large moduli incl. 2^31-1; the same enumeration repeated in a build with overflow checks (an overflow panic is a violation); thorough adds the complete inverse tables of 998244353 and 2^31-1.",
+      "Trusted: i128 reference arithmetic. Bounded: moduli between 65 and 2^31 other than the seven listed are not instantiated.",
+      "exhaustive small-scope input enumeration against an i128 reference, two build profiles",
+      "DESIGN.md §4 C06")
+check("C07", "rational", "exploration",
+      "Exhaustive over the box |a|,|b|,|c|,|d| <= 8 (quick) / 16 (thorough) for Rational<i32>, <i64>, <i128>, unreduced and negative-denominator spellings included: 28 families (new, + - * / in by-value, by-reference and both assigning forms, neg, floor, ceil, ==, Hash, cmp, partial_cmp, antisymmetry; transitivity over all triples of distinct box values), plus all quadruples of a boundary set up to 2^30 with overflowing cases computed exactly and skipped.",
+      "Trusted: i128 reference with its own gcd. Bounded: values outside the box and the boundary set.",
+      "exhaustive small-scope input enumeration against an exact reference",
+      "DESIGN.md §4 C07")
+check("C10", "geometry", "exploration",
+      "Every circle x line, ordered circle pair, ordered line pair, circle x point and line x point on an integer lattice ([-4,4]^2, radii <= 6 quick; [-6,6]^2, radii <= 8 thorough) and on its images under three rational rotations, quarter shifts and integer scalings up to |coordinate| ~ 1e3; the kind of contact is decided exactly in i128 on the pre-image, tangencies (incl. non-axis-aligned ones through Pythagorean triples) are constructed, every returned point is checked against both primitives at 1e-7. The minimum gap to a kind boundary on the enumerated set is measured and asserted >> 1e-9.",
+      "Trusted: exact integer classification; f64 evaluation of the exact intersection formula for the point oracle. Bounded: rational lattices, not all real configurations.",
+      "exhaustive enumeration of exact-rational configurations with integer-arithmetic oracle",
+      "DESIGN.md §4 C10")
+check("C11", "gcd", "exploration",
+      "gcd/lcm for all pairs |a|,|b| <= 300 on all 12 integer types (all i8/u8 pairs) and all pairs of 156 boundary magnitudes up to the type maxima; egcd on the full cube |a|,|b|,|c| <= 40 (quick) / 80 (thorough) minus a=b=0 on i32/i64/i128 plus boundary triples up to 2^20; crt for all moduli 1..=64 (128) with all reduced residues plus boundary modulus pairs up to 2^20; thorough adds all u16 and i16 pairs.",
+      "Trusted: table/Stein reference gcd, exact i128 verification of a*x+b*y=c and of the CRT answer. Out-of-domain (results that do not fit the type, lcm(0,0), egcd(0,0,c)) skipped and counted.",
+      "exhaustive small-scope input enumeration against a number-theoretic reference",
+      "DESIGN.md §4 C11")
+check("C12", "bitset", "model_checking",
+      "Closure BFS of the real Bitset<N> for N = 1, 2, 3 (thorough: also 10) from new/default/from_u64 over set/remove/flip at the word-boundary positions, clear, complement and clone, with test(i) for every i, count, iter_bits, ==, Display and Debug judged after every transition; a bounded sweep with set/remove/flip at EVERY index; and & | ^ and their assigning forms on all ordered pairs of the first 1500 reached sets per N.",
+      "Trusted: Vec<bool> model. Bounded: positions outside the boundary alphabet are reached only by the depth-bounded sweep; operand pairs capped at 1500 states per N (reported).",
+      "explicit-state BFS to closure with lockstep set model, exhaustive operand pairs",
+      "DESIGN.md §4 C12")
+check("C13", "sieve", "exploration",
+      "For EVERY limit N in 0..=1500 (quick) / 0..=4096 (thorough) a fresh Sieve::new(N) is compared for every n <= N (is_prime, min_prime, primes(), factorize) with trial division, plus N = 10^6 (10^7) element by element against an independent Eratosthenes sieve.",
+      "Trusted: trial-division and Eratosthenes references (cross-checked against each other and against known prime counts).",
+      "exhaustive enumeration of all limits and all arguments up to the bound",
+      "DESIGN.md §4 C13")
+check("C14", "rand", "exploration",
+      "gen_from_u64 called directly with an adversarial raw alphabet for every (start,end) of all five range forms of i8/u8 and boundary ranges of the wider types (in-range and reachability), a grid of finite f64 ranges x 2273 raw values (start <= x < end), determinism over 65k seeds, and shuffle over 216000 enumerated seeds (permutation, every order of <= 6 elements reached, counts within [mean/2, 2*mean]), plus absence of a period <= 1024 in 4096-draw streams of small ranges.",
+      "Trusted: the deterministic count criteria stand in for 'near-equal frequency' and 'not periodic'; signed `..b` with b <= 0 is treated as an empty (out-of-domain) range as in the crate's tests.",
+      "exhaustive enumeration of ranges x raw outputs and of seeds, deterministic count criteria",
+      "DESIGN.md §4 C14")
+check("C15", "iter", "exploration",
+      "Every mask of u8/i8/u16/i16 in both directions against the definition (order, membership, exact count, terminal element), bounded-popcount masks over boundary bit positions for the 32/64/128-bit and size types, every word over a 3-letter alphabet up to length 6 (7) and every permutation of <= 7 (8) elements for next_permutation / iter_permutations, and every grid up to 6x6 with every cell for the three neighbour iterators.",
+      "Trusted: definitional references; the neighbour order oracle is the offset order shown in the crate's own tests.",
+      "exhaustive input enumeration against definitional references",
+      "DESIGN.md §4 C15")
+check("C18", "f80", "exploration",
+      "All ordered pairs of a 190-element boundary set of f64 bit patterns (zeros, subnormals, powers of two and neighbours, long carry chains, extremes, infinities, NaN) through + - * / and assigning forms, min, max, all relations, ==, partial_cmp; all members through neg, abs and the conversions; and every operation again on all ordered pairs of 300 (quick) / 2000 (thorough) full-width first-level results, compared bit for bit with a software model of x87 double-extended arithmetic (round-to-nearest-even at 64 bits).",
+      "Trusted: the software x87 model (validated against hardware on every arithmetic case it is compared on); x86-64 with 64-bit precision control (asserted at start).",
+      "exhaustive pair enumeration over a boundary set and second-level chains against an exact soft-float reference",
+      "DESIGN.md §4 C18")
+check("C19", "tensor", "exploration",
+      "All 340 (quick) / 780 (thorough) shapes of rank 1..4 with extents up to 4 / 5: every valid index (row-major offset, bijection, iteration order, single-element writes), every index out of range in exactly one dimension must panic for Index/IndexMut/get_index (incl. those whose flat offset stays inside the storage), constructors reject zero extents and wrong lengths, write/read round trip through the real Writer/Reader, and equality over all pairs of same-rank shapes with equal data.",
+      "Trusted: odometer reference for row-major order; the separator format oracle is the crate's own `output` test.",
+      "exhaustive enumeration of shapes and indices",
+      "DESIGN.md §4 C19")
+check("C20", "lambda", "exploration",
+      "Enumerates PROGRAMS: all 496 macro shapes (31 capture patterns x 1..4 arguments x return type or none x both call syntaxes; thorough: x 3 body templates) are generated as Rust source, compiled against /repo's macro and run against the equivalent hand-written recursive fn on a grid of arguments; a shape that fails to compile or differs in result or captured state is a violation.",
+      "Trusted: the generator emits the same body text for both versions; rustc/cargo. Bounded: at most 4 captures and 4 arguments.",
+      "exhaustive enumeration of macro invocation shapes, compiled and executed",
+      "DESIGN.md §4 C20")
+
 PENDING = {
 }
 
